@@ -105,7 +105,10 @@ pub fn spec(check: &str, tier: &str) -> Option<CheckSpec> {
             progs.extend(fam::lock_arrival_family(tier));
             progs.extend(fam::mix_programs(tier));
             progs.extend(fam::yield_ins_family(tier));
-            level.push_str("; SPIN+LOCK; MIX (blocks of different primitive kinds); YINS (yield_now inserted at every position of small A-sc / LOCK programs)");
+            for k in ["FINS", "LINS", "MINS"] {
+                progs.extend(fam::op_ins_family(if tier == "quick" { 2 } else { 8 }, k, true));
+            }
+            level.push_str("; SPIN+LOCK; MIX (blocks of different primitive kinds); YINS (yield_now inserted at every position of small A-sc / LOCK programs); FINS / LINS / MINS (a SeqCst fence / a relaxed load of an unrelated atomic / a lock-unlock of an unrelated mutex inserted likewise: must change nothing)");
             Some(CheckSpec {
                 id: "C01",
                 level: "model_checking",
@@ -588,7 +591,10 @@ pub fn spec(check: &str, tier: &str) -> Option<CheckSpec> {
                 progs.extend(fam::lock_sentinels());
                 progs.extend(fam::yield_bases(tier));
                 progs.extend(fam::yield_ins_family(tier));
-                level = "A-sc 2 threads x <=3 ops, 3 threads; LOCK 2-3 threads <=8 ops; WAIT quick level; yield / spin / wait-loop programs; YINS; bounds 0..6 and unbounded".to_string();
+                for k in ["FINS", "LINS", "MINS"] {
+                    progs.extend(fam::op_ins_family(4, k, true));
+                }
+                level = "A-sc 2 threads x <=3 ops, 3 threads; LOCK 2-3 threads <=8 ops; WAIT quick level; yield / spin / wait-loop programs; YINS; FINS / LINS / MINS; bounds 0..6 and unbounded".to_string();
             }
             Some(CheckSpec {
                 id: "C15",
